@@ -136,6 +136,19 @@ def _plane_height(spec, Q):
   return -6.0 + low - 0.03
 
 
+def _limit_class(spec, pipe):
+  """Structural signature of the listed limit findings ('' = none)."""
+  if pipe == 'generalized':
+    return ''
+  if not phys.orthogonal_stacks(spec):
+    return ':non-orthogonal-stack-axes'
+  if pipe == 'positional' and any(
+      l['kind'] == 'HHH' and np.linalg.det(np.array(l['axes'])) < 0
+      for l in spec['links']):
+    return ':limited-left-handed-three-hinge-stack'
+  return ''
+
+
 def check_inert(spec, pipe, tier, seed, res):
   if pipe != 'generalized' and not phys.all_supported(spec):
     return
@@ -221,10 +234,8 @@ def _check_inert(spec, pipe, tier, seed, res, asym):
             1 + np.abs(outs[0][k][i]).max())
         if not e <= 1e-9:
           res['violations'].append(dict(
-              key='C06:%s:%s%s' % (tag, pipe, ':non-orthogonal-stack-axes'
-                                   if (v in (2, 3) and pipe != 'generalized'
-                                       and not phys.orthogonal_stacks(spec))
-                                   else ''),
+              key='C06:%s:%s%s' % (tag, pipe, _limit_class(spec, pipe)
+                                   if v in (2, 3) else ''),
               what='%s: %s (variant V%d) changes %s by %.3g after one step '
               '(kinds=%s q=%s)' % (pipe, tag, v, nm, e,
                                    [l['kind'] for l in spec['links']],
@@ -398,13 +409,13 @@ def check_rest(shape, pipe, tier, seed, res):
     pen = -low.min()
     want = -low0
     final = pos[-1][2]
-    if pen > 0.05 or abs(final - want) > 0.005 or np.abs(vel[-1]).max() > 0.05:
+    if pen > 0.05 or abs(final - want) > 0.005 or abs(vel[-1][2]) > 0.05:
       res['violations'].append(dict(
           key='C06:resting:%s' % pipe,
           what='%s: %s size %g density %g dropped from %g: max penetration '
-          '%.3g m, final centre height %.4f (analytic %.4f), final speed %.3g'
+          '%.3g m, final centre height %.4f (analytic %.4f), final vertical speed %.3g'
           % (pipe, shape, size, density, h, pen, final, want,
-             np.abs(vel[-1]).max()), case=case))
+             abs(vel[-1][2])), case=case))
       return
 
 
